@@ -315,10 +315,10 @@ def run(tier):
             grid, rows = w.make_grid(FILTERS)
             scen = [
                 ('cold_distinct', [[1], [2]], True, 4000),
-                ('case_twins', [[1], [3]], True, 400 if tier == 'quick' else 4000),
-                ('same_filter', [[1], [1]], True, 400 if tier == 'quick' else 4000),
-                ('evict_and_reuse', [[1, 4], [2, 1]], True, 1500 if tier == 'quick' else 20000),
-                ('three_threads', [[1], [2], [3, 1]], True, 800 if tier == 'quick' else 10000),
+                ('case_twins', [[1], [3]], True, 400 if tier == 'quick' else 2000),
+                ('same_filter', [[1], [1]], True, 400 if tier == 'quick' else 2000),
+                ('evict_and_reuse', [[1, 4], [2, 1]], True, 1500 if tier == 'quick' else 8000),
+                ('three_threads', [[1], [2], [3, 1]], True, 800 if tier == 'quick' else 5000),
             ]
             traces, meta = [], []
             rep.extra['schedule_enumeration'] = {}
